@@ -258,14 +258,24 @@ package bchutil
 //@   ensures freshornil(result0) && (err != nil ==> len(result0) == 0)
 //@   ensures pad ==> err == nil
 //@   ensures err == nil ==> forall k :: 0 <= k && k < len(result0) ==> int(result0[k]) < (tobits == 5 ? 32 : 256)
+//@   ensures err == nil && !pad && len(data) > 0 ==> (int(fromBits) * len(data)) % int(tobits) < int(fromBits)
+//@   ensures err == nil && !pad && len(data) > 0 ==> (u64(data[len(data)-1]) & ((u64(1) << u64((int(fromBits) * len(data)) % int(tobits))) - 1)) == 0
 //@   modifies nothing
 //@   loop 1 invariant len(uintArr) == $i && freshornil(uintArr)
+//@   loop 1 invariant forall k :: 0 <= k && k < $i ==> uintArr[k] == u64(data[k])
 //@   loop 1 inline-unroll 70
 //@   loop 2 invariant bits < tobits && freshornil(ret) && len(uintArr) == len(data) && maxv == (u64(1) << tobits) - 1
 //@   loop 2 invariant forall k :: 0 <= k && k < len(ret) ==> ret[k] <= maxv
+//@   loop 2 invariant int(bits) == (int(fromBits) * $i) % int(tobits)
+//@   loop 2 invariant cap(ret) == 0 || !sameobj(ret, uintArr)
+//@   loop 2 invariant forall k :: 0 <= k && k < len(data) ==> uintArr[k] == u64(data[k])
+//@   loop 2 invariant $i > 0 && bits <= fromBits ==> (acc & ((u64(1) << bits) - 1)) == (uintArr[$i-1] & ((u64(1) << bits) - 1))
 //@   loop 2 inline-unroll 70
 //@   loop 3 invariant bits < tobits + fromBits && freshornil(ret) && maxv == (u64(1) << tobits) - 1
 //@   loop 3 invariant forall k :: 0 <= k && k < len(ret) ==> ret[k] <= maxv
+//@   loop 3 invariant cap(ret) == 0 || !sameobj(ret, uintArr)
+//@   loop 3 invariant forall k :: 0 <= k && k < len(data) ==> uintArr[k] == u64(data[k])
+//@   loop 3 invariant int(bits) % int(tobits) == (int(fromBits) * ($i2 + 1)) % int(tobits)
 //@   loop 3 decreases int(bits)
 //@   loop 3 inline-unroll 3
 //@   loop 4 invariant len(dataArr) == $i && freshornil(dataArr) && maxv == (u64(1) << tobits) - 1
